@@ -28,6 +28,7 @@ pub const SUBS: &[SubDef] = &[
     SubDef { prop: "C15", name: "dtls_parsed", oracle: dtls_parsed },
     SubDef { prop: "C15", name: "constructed", oracle: constructed },
     SubDef { prop: "C15", name: "server", oracle: server },
+    SubDef { prop: "C15", name: "neighbour_context", oracle: neighbour_context },
 ];
 
 fn run(ctx: &Ctx) {
@@ -39,6 +40,12 @@ fn run(ctx: &Ctx) {
     // private table consulted for one version only - national or experimental suites - would hide behind the per-id sweeps)
     let cases = (0..JOINT_VERSIONS.len() as u8).flat_map(|vi| (0..=255u8).map(move |hi| vec![vi, hi]));
     ctx.run_enum("version_cipher_joint", version_cipher_joint, true, &format!("{} versions x all 65536 ids through cipher_suites / get_ciphers (TLS, DTLS) and get_cipher (ServerHello)", JOINT_VERSIONS.len()), cases);
+    // every registered id at every position of lists of 16, 17 and 32 entries whose other entries are all unlisted ids above it, all unlisted
+    // ids below it, all listed ids, or copies of itself (block-wise or range-based shortcuts in the list accessors answer for a whole
+    // neighbourhood; per-id sweeps and lists of consecutive ids never put a registered id alone among such neighbours)
+    let rows = super::c12::tabs().map(|t| t.file.len()).unwrap_or(0);
+    let cases = (0..rows).flat_map(|k| (0..4u8).map(move |c| vec![(k >> 8) as u8, k as u8, c]));
+    ctx.run_enum("neighbour_context", neighbour_context, true, "every registered id x 4 kinds of neighbours x every position of lists of 16, 17, 32 entries through cipher_suites / get_ciphers (TLS, DTLS)", cases);
     // the accessors in a process that has not touched the registry yet: one fresh child process per registered id (that id is the first
     // thing the child looks up), followed by an unlisted id and the same registered id again. State kept between lookups (a cache, a
     // lazily built table) whose initial value collides with a real id shows up here and, at best by luck, nowhere else
@@ -110,6 +117,44 @@ fn version_cipher_joint(t: &mut Tape, obs: &mut Obs) -> R {
         }
     }
     obs.nontrivial((version as u64) << 8 | hi as u64);
+    Ok(())
+}
+
+/// parameter tape: [row index high, row index low, neighbour kind]
+fn neighbour_context(t: &mut Tape, obs: &mut Obs) -> R {
+    let tb = super::c12::tabs()?;
+    let k = (t.u8() as usize) << 8 | t.u8() as usize;
+    let kind = t.u8();
+    let r = match tb.file.get(k) { Some(r) => r, None => return Ok(()) };
+    let listed = |v: u16| tb.file.iter().any(|x| x.id == v);
+    let fill: Vec<u16> = match kind {
+        0 => (r.id as u32 + 1..=0xffff).map(|v| v as u16).filter(|v| !listed(*v)).take(24).chain([0xdadau16, 0xeaea, 0xfafa, 0xff01, 0xffff].into_iter().filter(|v| *v > r.id && !listed(*v))).collect(),
+        1 => (0..r.id).rev().filter(|v| !listed(*v)).take(24).chain([0x0a0au16, 0x0000, 0x1a1a].into_iter().filter(|v| *v < r.id && !listed(*v))).collect(),
+        2 => tb.file.iter().map(|x| x.id).filter(|v| *v != r.id).skip(k % 7).step_by(11).take(24).collect(),
+        _ => vec![r.id],
+    };
+    if fill.is_empty() {
+        return Ok(());
+    }
+    let random = [0x44u8; 32];
+    for len in [16usize, 17, 32] {
+        for pos in 0..len {
+            let ids: Vec<u16> = (0..len).map(|i| if i == pos { r.id } else { fill[(i * 5 + pos) % fill.len()] }).collect();
+            let want: Vec<Option<&str>> = ids.iter().map(|id| tb.file.iter().find(|x| x.id == *id).map(|x| x.name.as_str())).collect();
+            let got = guard("hello accessors", || {
+                let ch = TlsClientHelloContents::new(0x0303, &random, None, ids.iter().map(|c| TlsCipherSuiteID(*c)).collect(), vec![TlsCompressionID(0)], None);
+                let d = DTLSClientHello { version: TlsVersion(0xfefd), random: &random, session_id: None, cookie: &[], ciphers: ids.iter().map(|c| TlsCipherSuiteID(*c)).collect(), comp: vec![TlsCompressionID(0)], ext: None };
+                let names = |v: Vec<Option<&TlsCipherSuite>>| v.into_iter().map(|s| s.map(|c| c.name)).collect::<Vec<_>>();
+                [names(ClientHello::cipher_suites(&ch)), names(ch.get_ciphers()), names(ClientHello::cipher_suites(&d))]
+            })?;
+            obs.evals_add(3);
+            for (route, v) in ["TLS cipher_suites()", "get_ciphers()", "DTLS cipher_suites()"].iter().zip(got.iter()) {
+                ensure!(*v == want, format!("C15:neighbour-context:{}", route), "{} on a list of {} ids with {:#06x} at position {} among {}: got {:?}, the registry says {:?}", route, len, r.id, pos, ["unlisted ids above it", "unlisted ids below it", "other listed ids", "copies of itself"][kind as usize % 4], trunc(&format!("{:?}", v)), trunc(&format!("{:?}", want)));
+            }
+        }
+    }
+    obs.nontrivial((k as u64) << 8 | kind as u64);
+    if k % 97 == 0 { obs.sample(json!({"id": format!("{:#06x}", r.id), "neighbours": kind, "list_lengths": [16, 17, 32]})); }
     Ok(())
 }
 
